@@ -11,10 +11,10 @@ import (
 
 func init() {
 	register(&Property{
-		ID:  "C15",
-		Run: runC15,
+		ID:          "C15",
+		Run:         runC15,
 		Explanation: "Divider contract and fail-safe behaviour: D1 every dynamic call through a Divider value in the discipline packages is enumerated; D2 its priorities argument is the registered list or an order-preserving filter of it (fields rebuilt as x=x[:0]; for p in priorities {if c {x=append(x,p)}}), the registered list is sorted by the descending comparator after every append and before every use, and is duplicate-free (v2: keys of the Inputs map; v1: appended only when the key is not registered); D3 the dividend is HandlersQuantity, the vacants value or the measured remainder; D4 (v2) the distribution argument is rooted in make(map); D5 safeDivide returns nil only for total 0 / exact match and ErrDividerBad otherwise (B7), the error reaches the err channel unchanged (E6) and the tactic typestate shows that no output write follows a failed division (B10); D6 the deferred wait-for-zero runs on the error exit (E4); D7 v2 New returns the error of prepare and nil, the go statement is reached only on the no-error edges; D8 the zero-share rejection quantifies over the registered priorities (a for-all over the list that was divided, looking each priority up in the distribution), not over the keys the divider chose to write.",
-		NotDecided: []string{"what a faulty divider does to memory it was not given (contract)"},
+		NotDecided:  []string{"what a faulty divider does to memory it was not given (contract)"},
 	})
 }
 
@@ -394,10 +394,11 @@ func (p *Prog) dividendOrigins(pr *prioRoles, fn *ssa.Function, v ssa.Value, dep
 	if ex, ok := v.(*ssa.Extract); ok && ex.Index == 0 {
 		v = ex.Tuple
 	}
+	if _, isVac := pr.vacantsValue(v); isVac {
+		return []originVerdict{{true, "vacants"}}
+	}
 	if call, ok := v.(*ssa.Call); ok {
 		switch p.Callee(call) {
-		case pr.vacantsFn:
-			return []originVerdict{{true, "vacants"}}
 		case pr.sumFn:
 			if p.isFieldLoad(call.Call.Args[0], "tactic") {
 				return []originVerdict{{true, "remainder"}}
